@@ -11,7 +11,7 @@ RULE = ("(A) MC_Serial: for every content up to L bits: tobytes = bits + 0..7 ze
         "classes through tobytes / bytes() / .bytes / tofile (real file and BytesIO), and seeded random windows (offset, length in, "
         "at and beyond the end, negative) over bytes, bytearray, BytesIO, bitarray, file name and file handle sources; tofile with "
         "the guarded chunk hook at sizes below / at / above / multiples of the chunk size (8, 16, 64, 1024 bits); thorough also "
-        "writes one real object larger than the shipped 100 MiB chunk with the hook unset. Array forms are decided under C14.")
+        "writes one real object larger than the shipped 100 MiB chunk with the hook unset. Array.fromfile (every n around what the source holds; real files and BytesIO) and Array.tobytes / tofile are judged here too and under C14.")
 
 
 def exhaustive_small(rng):
@@ -49,6 +49,8 @@ def run(chk):
     chk.exhaustive = True
     chk.queue([serialprogs.window_program(rng, big=thorough) for _ in range(8000 if thorough else 2000)], 'random-windows')
     chk.queue([serialprogs.tight_window_program(rng) for _ in range(3000 if thorough else 600)], 'windows-at-the-end')
+    from harness import arrayprogs
+    chk.queue([arrayprogs.array_convert_program(rng) for _ in range(1500 if thorough else 300)], 'array-fromfile')
     chk.queue([serialprogs.tofile_program(rng) for _ in range(2000 if thorough else 500)], 'random-tofile-chunks')
     chk.flush()
     if thorough:
